@@ -6,6 +6,7 @@ import (
 	"fmt"
 	"sort"
 	"testing"
+	"time"
 
 	"github.com/hashicorp/serf/serf"
 	"pgregory.net/rapid"
@@ -24,10 +25,19 @@ type c17Step struct {
 	Kind   int `json:"k"` // 0 join 1 leave 2 failed 3 update 4 reap 5 flush
 	Member int `json:"m"`
 	Tag    int `json:"t"`
+	// More: further members carried by the same event (a MemberEvent may list
+	// several members; the same member may even appear twice, the last entry
+	// is the latest)
+	More []int `json:"more,omitempty"`
 }
 
 type c17Case struct {
 	Steps []c17Step `json:"steps"`
+	// Loop: run the same steps through the real coalesceLoop (timers, channels)
+	// instead of calling Handle/Coalesce/Flush directly; a flush step is then a
+	// pause. Quantum boundaries are the timers' business there, so only the
+	// claims that hold for ANY cut are judged.
+	Loop bool `json:"loop,omitempty"`
 }
 
 var c17Kinds = []serf.EventType{serf.EventMemberJoin, serf.EventMemberLeave, serf.EventMemberFailed, serf.EventMemberUpdate, serf.EventMemberReap}
@@ -38,15 +48,115 @@ func genC17(t *rapid.T) c17Case {
 	var c c17Case
 	for i := 0; i < n; i++ {
 		k := rapid.SampledFrom([]int{0, 1, 2, 3, 3, 4, 5, 5}).Draw(t, "kind")
-		c.Steps = append(c.Steps, c17Step{Kind: k, Member: rapid.IntRange(0, nm-1).Draw(t, "m"), Tag: rapid.IntRange(0, 3).Draw(t, "tag")})
+		st := c17Step{Kind: k, Member: rapid.IntRange(0, nm-1).Draw(t, "m"), Tag: rapid.IntRange(0, 3).Draw(t, "tag")}
+		if k < 5 && rapid.IntRange(0, 4).Draw(t, "multi") == 0 {
+			st.More = rapid.SliceOfN(rapid.IntRange(0, nm-1), 1, 3).Draw(t, "more")
+		}
+		c.Steps = append(c.Steps, st)
 	}
 	c.Steps = append(c.Steps, c17Step{Kind: 5})
+	c.Loop = rapid.IntRange(0, 23).Draw(t, "loop") == 0
 	return c
 }
 
 func c17Name(m int) string { return fmt.Sprintf("node%d", m) }
 
+// bodyC17Loop drives the real loop. Judged (valid for every way the timers cut
+// the stream into quanta): everything reported was received; a member is not
+// reported more often than it had events; once the stream is quiet the kind
+// last reported for each member equals the kind of its latest event; events the
+// coalescer does not handle pass through unchanged, once, in order.
+func bodyC17Loop(c c17Case, x *vkit.Ctx) {
+	out := make(chan serf.Event, 4096)
+	shutdown := make(chan struct{})
+	in := serf.VerifCoalescedEventCh(out, shutdown, 3*time.Millisecond, time.Millisecond, serf.VerifNewMemberCoalescer())
+	defer close(shutdown)
+	type rec struct {
+		kind serf.EventType
+		tag  string
+	}
+	received := map[string]map[rec]bool{}
+	count := map[string]int{}
+	latest := map[string]serf.EventType{}
+	var passSent []string
+	for si, st := range c.Steps {
+		if st.Kind == 5 {
+			time.Sleep(6 * time.Millisecond)
+			// a user event in between: must pass straight through
+			name := fmt.Sprintf("pass-%d", si)
+			passSent = append(passSent, name)
+			in <- serf.UserEvent{Name: name, LTime: serf.LamportTime(si)}
+			continue
+		}
+		ev := serf.MemberEvent{Type: c17Kinds[st.Kind]}
+		for j, m := range append([]int{st.Member}, st.More...) {
+			tag := fmt.Sprint(st.Tag + 10*j)
+			ev.Members = append(ev.Members, serf.Member{Name: c17Name(m), Tags: map[string]string{"t": tag}})
+			if received[c17Name(m)] == nil {
+				received[c17Name(m)] = map[rec]bool{}
+			}
+			received[c17Name(m)][rec{ev.Type, tag}] = true
+			count[c17Name(m)]++
+			latest[c17Name(m)] = ev.Type
+		}
+		in <- ev
+	}
+	// collect until quiet
+	lastRep := map[string]serf.EventType{}
+	reports := map[string]int{}
+	var passGot []string
+	quiet := time.NewTimer(60 * time.Millisecond)
+	defer quiet.Stop()
+	for done := false; !done; {
+		select {
+		case e := <-out:
+			switch v := e.(type) {
+			case serf.MemberEvent:
+				for _, m := range v.Members {
+					if !received[m.Name][rec{v.Type, m.Tags["t"]}] {
+						x.Violationf("loop-reported-never-received", "loop: member %s reported with %v/tag %s, which was never received", m.Name, v.Type, m.Tags["t"])
+						return
+					}
+					lastRep[m.Name] = v.Type
+					reports[m.Name]++
+				}
+			case serf.UserEvent:
+				passGot = append(passGot, v.Name)
+			}
+			if !quiet.Stop() {
+				select {
+				case <-quiet.C:
+				default:
+				}
+			}
+			quiet.Reset(60 * time.Millisecond)
+		case <-quiet.C:
+			done = true
+		}
+	}
+	for m, k := range latest {
+		if reports[m] > count[m] {
+			x.Violationf("loop-reported-too-often", "loop: member %s had %d events but was reported %d times", m, count[m], reports[m])
+			return
+		}
+		if got, ok := lastRep[m]; !ok || got != k {
+			x.Violationf("loop-app-kind-differs", "loop: stream quiet, member %s: the application last saw %v (reported=%v), its latest event is %v", m, got, ok, k)
+			return
+		}
+	}
+	if fmt.Sprint(passGot) != fmt.Sprint(passSent) {
+		x.Violationf("loop-passthrough", "loop: pass-through events sent %v, received %v", passSent, passGot)
+		return
+	}
+	x.Label("real-coalesce-loop")
+	x.NonTrivial(len(latest) > 0 && len(passSent) > 1)
+}
+
 func bodyC17(c c17Case, x *vkit.Ctx) {
+	if c.Loop {
+		bodyC17Loop(c, x)
+		return
+	}
 	co := serf.VerifNewMemberCoalescer()
 	type pend struct {
 		kind serf.EventType
@@ -57,18 +167,27 @@ func bodyC17(c c17Case, x *vkit.Ctx) {
 	lastSeenByApp := map[string]serf.EventType{}
 	latestKind := map[string]serf.EventType{} // kind of the latest event ever received
 	flushes, suppressed, d5shape := 0, 0, false
+	multi := 0
 	updatedEarlier := map[string]bool{} // member had an update reported in an earlier quantum
 	for si, st := range c.Steps {
 		if st.Kind < 5 {
-			name := c17Name(st.Member)
-			ev := serf.MemberEvent{Type: c17Kinds[st.Kind], Members: []serf.Member{{Name: name, Tags: map[string]string{"t": fmt.Sprint(st.Tag)}}}}
+			ev := serf.MemberEvent{Type: c17Kinds[st.Kind]}
+			for j, m := range append([]int{st.Member}, st.More...) {
+				// every entry gets its own tag value so that "the latest" is decidable
+				ev.Members = append(ev.Members, serf.Member{Name: c17Name(m), Tags: map[string]string{"t": fmt.Sprint(st.Tag + 10*j)}})
+			}
 			if !co.Handle(ev) {
 				x.Violationf("handle-refused", "step %d: coalescer refused member event kind %v", si, ev.Type)
 				return
 			}
 			co.Coalesce(ev)
-			pending[name] = pend{ev.Type, st.Tag}
-			latestKind[name] = ev.Type
+			for j, m := range append([]int{st.Member}, st.More...) {
+				pending[c17Name(m)] = pend{ev.Type, st.Tag + 10*j}
+				latestKind[c17Name(m)] = ev.Type
+			}
+			if len(st.More) > 0 {
+				multi++
+			}
 			continue
 		}
 		// flush
@@ -169,6 +288,9 @@ func bodyC17(c c17Case, x *vkit.Ctx) {
 	}
 	if d5shape {
 		x.Label("update-then-silent-quantum")
+	}
+	if multi > 0 {
+		x.Label("multi-member-event")
 	}
 	x.NonTrivial(flushes >= 2 && (d5shape || suppressed > 0))
 }
